@@ -39,10 +39,17 @@ def focus(ctx, P):
     b = ctx.body('composed::message::reader::sym_encrypted_protected::SymEncryptedProtectedDataReader::<R>::decrypt')
     if b is not None:
         # AeadAlgorithm::decrypt_in_place slices key[..16|24|32]: the key length must have been compared with the cipher's key size
-        sinks = [i for i, t in b.calls(r'replace_with_and_return') ]
-        clos = [r for r in ctx.f.closures_of(b.path) if ctx.wrap(r).calls(r'StreamDecryptor.*::(v2|gnupg_aead)$')]
-        ctx.check(P + ':focus:aead-key-length-checked', 'R-dom', 'the AEAD stream decryptors are built only after session_key.len() == sym_alg.key_size() was checked (C15 S15-2 keylen instances)',
-                  len(guard_switches(b, sinks, [r'call:.*SymmetricKeyAlgorithm::key_size$', r'call:.*len$'])) >= 2 and len(clos) >= 2, function=b.path)
+        from rules.c15 import container_of
+        from rules.common import arm_context
+        dom = b.dominators()
+        sinks = call_blocks(b, r'replace_with_and_return')
+        n = 0
+        for cont in ('GnuPG-AEAD', 'SEIPDv2'):
+            ss = [x for x in sinks if container_of(arm_context(b, x, dom)) == cont]
+            n += len(ss)
+            rdom(ctx, P + ':focus:aead-key-length-checked:%s' % cont, b, ss, [r'call:.*SymmetricKeyAlgorithm::key_size$', r'call:.*len$'],
+                 'the %s stream decryptor (which slices key[..key_size]) is built only after session_key.len() == sym_alg.key_size() was checked on every path' % cont)
+        ctx.floor(P + ':focus:aead-key-length:floor', 'AEAD decryptor construction sites', n, 2)
 
 
 def run(ctx):
@@ -52,7 +59,8 @@ def run(ctx):
     focus(ctx, P)
 
 
-def r_panic(ctx, P):
+def r_panic(ctx, P, only=None, floors=(1800, 1200, 150)):
+    """only: regex on the function path (another property re-using the inventory for its own modules)."""
     base = panics.load_baseline()
     base_guards = panics.load_baseline_guards()
     ratchet = 0
@@ -62,7 +70,7 @@ def r_panic(ctx, P):
     seen = set()
     nfun = 0
     for p, r in sorted(ctx.f.bodies.items()):
-        if panics.skip_body(p, r):
+        if panics.skip_body(p, r) or (only and not re.search(only, p)):
             continue
         b = ctx.wrap(r)
         ks = panics.keyed_sites(b)
@@ -97,9 +105,9 @@ def r_panic(ctx, P):
                           function=p, site=site(b, i),
                           missing='no dominating rejecting length/zero comparison on the same value was found; add the guard, or review and list the key in rules/reviewed/panic_baseline.txt')
     ctx.ok(P + ':panic:inventory', 'R-panic', 'all %d panic-capable sites are discharged (%d by tactic) or reviewed (%d in baseline)' % (tot, sum(by_tactic.values()), in_base), count=tot)
-    ctx.floor(P + ':panic:floor:sites', 'panic-capable sites inventoried', tot, 1800)
-    ctx.floor(P + ':panic:floor:ratchet', 'reviewed sites whose related dominating guards are re-counted', ratchet, 150)
-    ctx.floor(P + ':panic:floor:tactics', 'sites discharged by tactics', sum(by_tactic.values()), 1200)
+    ctx.floor(P + ':panic:floor:sites', 'panic-capable sites inventoried', tot, floors[0])
+    ctx.floor(P + ':panic:floor:ratchet', 'reviewed sites whose related dominating guards are re-counted', ratchet, floors[2])
+    ctx.floor(P + ':panic:floor:tactics', 'sites discharged by tactics', sum(by_tactic.values()), floors[1])
     ctx.extra = dict(getattr(ctx, 'extra', {}), panic_sites=tot, panic_by_tactic=dict(by_tactic), panic_in_baseline=in_base,
                      panic_baseline_stale=len(set(base) - seen), panic_functions=nfun)
 
